@@ -214,6 +214,35 @@ fn ops_on_ctx(out0: &mut Out, idxs: &[usize], rng: &mut SplitMix64, pre: Option<
             }
             let mut r = buf.to_vec(); r.reverse(); r
         })));
+        // apply_vec_in_place takes an OWNED Array1: owned arrays with stride 2, stride 3 after slice_collapse, reversed axis
+        for (lay, k) in [("inplace_strided", 0usize), ("inplace_collapsed", 0), ("inplace_reversed", 0),
+                         ("dinplace_strided", 1), ("dinplace_reversed", 1), ("dinplace_collapsed", 2), ("dinplace_reversed", 3)].iter()
+        {
+            let v8 = v.clone();
+            let lay = *lay; let k = *k;
+            let rq = if k == 0 { format!("{} {} | {}", lay, is, vs) } else { format!("{} {} | {} | {}", lay, is, k, vs) };
+            out.case(&rq, &opt(exec(pre, || {
+                let mut q = mk(); for _ in 0..k { q = q.inverse(); }
+                let mut w: ndarray::Array1<i64> = if lay.ends_with("strided") {
+                    let mut long = ndarray::Array1::<i64>::zeros(2 * n);
+                    for i in 0..n { long[2 * i] = v8[i]; long[2 * i + 1] = -7777; }
+                    long.slice_move(s![..;2])
+                } else if lay.ends_with("collapsed") {
+                    let mut long = ndarray::Array1::<i64>::zeros(3 * n);
+                    for i in 0..n { long[3 * i + 1] = v8[i]; }
+                    long.slice_collapse(s![1..;3]);
+                    long
+                } else {
+                    let mut r = ndarray::Array1::from_vec(v8.iter().rev().cloned().collect());
+                    r.invert_axis(ndarray::Axis(0));
+                    r
+                };
+                assert!(w.len() == n && (0..n).all(|i| w[i] == v8[i]));
+                assert!(n < 2 || w.as_slice().is_none());
+                q.apply_vec_in_place(&mut w);
+                w.iter().cloned().collect()
+            })));
+        }
         let v7 = v.clone();
         out.case(&format!("invinto_strided {} | {}", is, vs), &opt(exec(pre, || {
             let mut long = ndarray::Array1::<i64>::zeros(3 * n);
@@ -440,6 +469,27 @@ fn main()
             match r { None => out.case(&format!("new {}", join(&idxs)), "panic"), Some(r) => out.case(&format!("new {}", join(&idxs)), &show_new(&r)) }
         }
     }
+    // boundary VALUES (decimal text in the protocol; the model works over Nat): usize::MAX, usize::MAX - 1, 2^63, 2^32, n, n + 1
+    // at every position of every list of length <= 4 over 0..len, then at two positions
+    for n in 1..=4usize
+    {
+        let big = [usize::MAX, usize::MAX - 1, 1usize << 63, (1usize << 63) - 1, 1usize << 32, (1usize << 32) - 1, n, n + 1];
+        let mut emit = |out: &mut Out, idxs: Vec<usize>| {
+            let r = catch(|| Permutation::new(idxs.clone()));
+            match r { None => out.case(&format!("new {}", join(&idxs)), "panic"), Some(r) => out.case(&format!("new {}", join(&idxs)), &show_new(&r)) }
+        };
+        for code in 0..(n as u64).pow(n as u32)
+        {
+            let mut c = code;
+            let base: Vec<usize> = (0..n).map(|_| { let d = (c % n as u64) as usize; c /= n as u64; d }).collect();
+            for pos in 0..n { for &b in big.iter() { let mut l = base.clone(); l[pos] = b; emit(&mut out, l); } }
+            if n >= 2 && code % 5 == 0
+            {
+                for p1 in 0..n { for p2 in 0..n { if p1 != p2 {
+                    let mut l = base.clone(); l[p1] = *rng.pick(&big); l[p2] = *rng.pick(&big); emit(&mut out, l); } } }
+            }
+        }
+    }
     // out-of-range elements, larger sizes
     let nrand = if thorough() { 4000 } else { 600 };
     for _ in 0..nrand
@@ -453,11 +503,18 @@ fn main()
             1 => { let i = rng.below(n as u64) as usize; idxs[i] = n + rng.below(5) as usize;
                    if rng.coin() { let j = rng.below(n as u64) as usize; idxs[j] = n + rng.below(9) as usize; }
                    if rng.coin() && n > 2 { let j = rng.below(n as u64) as usize; let k = rng.below(n as u64) as usize; idxs[j] = idxs[k]; } },
+            2 => { if rng.coin() { let i = rng.below(n as u64) as usize;
+                                   idxs[i] = *rng.pick(&[usize::MAX, usize::MAX - 1, 1usize << 63, 1usize << 32, n, n + 1]); } },
             _ => {}
         }
-        let r = Permutation::new(idxs.clone());
-        out.case(&format!("new {}", join(&idxs)), &show_new(&r));
-        if r.is_ok() { ops_on(&mut out, &idxs, &mut rng); }
+        match catch(|| Permutation::new(idxs.clone()))
+        {
+            None => out.case(&format!("new {}", join(&idxs)), "panic"),
+            Some(r) => {
+                out.case(&format!("new {}", join(&idxs)), &show_new(&r));
+                if r.is_ok() { ops_on(&mut out, &idxs, &mut rng); }
+            }
+        }
     }
     structured_stream(&mut out, &mut rng);
     fault_stream(&mut out, &mut rng);
